@@ -339,3 +339,16 @@ Proof. intros H Hp H0 H2 H4. unfold is_bytes in H.
   repeat match goal with H : Forall _ (_ :: _) |- _ => inversion H; subst; clear H end. unfold is_byte in *.
   rewrite insert_pts_cons. f_equal. unfold ts_bytes, ts_value. cbn [app].
   repeat (apply (f_equal2 (@cons N)); [lia|]). reflexivity. Qed.
+
+(* ---- restatements in the argument order of Properties/C04.v ---- *)
+Lemma pcr_layout v old : v < 18446744073709551616 -> (6 <= length old)%nat ->
+  PcrCodec.insert_pcr old v = Ok (pcr_bytes v ++ skipn 6 old).
+Proof. exact (insert_pcr_ok old v). Qed.
+Lemma pts_layout v old : (5 <= length old)%nat -> Pts.insert_pts old v = Ok (ts_bytes 2 v ++ skipn 5 old).
+Proof. exact (insert_pts_ok old v). Qed.
+Lemma pcr_panics_iff_short b v :
+  (PcrCodec.insert_pcr b v = Panic <-> (length b < 6)%nat) /\ (PcrCodec.extract_pcr b = Panic <-> (length b < 6)%nat).
+Proof. split; [apply insert_pcr_panic_iff | apply extract_pcr_panic_iff]. Qed.
+Lemma pts_panics_iff_short b v :
+  (Pts.insert_pts b v = Panic <-> (length b < 5)%nat) /\ (Pts.extract_time b = Panic <-> (length b < 5)%nat).
+Proof. split; [apply insert_pts_panic_iff | apply extract_time_panic_iff]. Qed.
